@@ -122,9 +122,12 @@ func hostileSender(script []hpkt) func(conn *hstream.Conn) error {
 		}()
 		idx := uint32(0)
 		ended := false
+		var late []hpkt
 		for _, p := range script {
 			var err error
 			switch p.T {
+			case "LATEDATA":
+				late = append(late, p)
 			case "STAT":
 				sizes[idx] = p.Size
 				idx++
@@ -176,6 +179,12 @@ func hostileSender(script []hpkt) func(conn *hstream.Conn) error {
 				}
 			}
 			if err := ep.SendMsg(&types.Packet{Type: types.PACKET_DATA, ID: id}); err != nil {
+				return nil
+			}
+		}
+		// content for an id whose transfer is already complete, sent after the receiver's FIN and before the echo
+		for _, p := range late {
+			if err := ep.SendMsg(&types.Packet{Type: types.PACKET_DATA, ID: p.ID, Data: hostileData(p.Size)}); err != nil {
 				return nil
 			}
 		}
@@ -433,6 +442,14 @@ func Hostile(c *Ctx) error {
 			}
 		}
 		rec(nil)
+		// reactive scripts: DATA for a file that is already complete (empty / non-empty), after the receiver's FIN
+		for di, d := range dests {
+			for _, sz := range []int{0, 3} {
+				cases = append(cases,
+					hostileCase{Script: []hpkt{{T: "STAT", Path: "e", Kind: "file", Size: sz}, {T: "LATEDATA", ID: 0, Size: 4}}, Dst: d, Origin: fmt.Sprintf("lateData/dest%d", di)},
+					hostileCase{Script: []hpkt{{T: "STAT", Path: "e", Kind: "file", Size: sz}, {T: "STAT", Path: "f", Kind: "file", Size: 2}, {T: "LATEDATA", ID: 0, Size: 4}, {T: "LATEDATA", ID: 1, Size: 1}}, Dst: d, Origin: fmt.Sprintf("lateData2/dest%d", di)})
+			}
+		}
 		c.Stats.Exhaustive = true
 		c.Stats.Note(fmt.Sprintf("all sequences up to length %d over a hostile alphabet of %d packets x %d prior destinations", maxLen, len(alpha), len(dests)))
 		// random longer streams: a valid walk mutated
